@@ -8,7 +8,7 @@ import HL.Lemmas.Index
 import HL.Lemmas.Edges
 import HL.Lemmas.Load
 namespace HL.Lemmas.WsInv
-open HL.Index HL.Workspace HL.Lemmas.AList HL.Lemmas.Reach HL.Lemmas.Edges HL.Lemmas.Index
+open HL.Index HL.Workspace HL.Lemmas.AList HL.Lemmas.ReachIdx HL.Lemmas.Edges HL.Lemmas.Index
 open HL.Spec.Rebuild
 
 /-- include targets of an indexed file (`FileIndex.Includes`), none for other paths -/
